@@ -95,4 +95,46 @@ class LiftRoundTrip(Case):
         return obs_loc(r)[:3]
 
 
-CASES = [LiftToChunk(), LiftRoundTrip()]
+class LiftChunkToChunk(Case):
+    """a location already placed on chunk A, lifted onto chunk B of the same chromosome: the part of the ORIGINAL
+    chromosome location inside both chunks, in B's coordinates (the lift goes through chromosome coordinates)."""
+    props = ("C04", "C07")
+    name = "AbstractInterval.liftover_location_to_seq_chunk_parent[chunk A -> chunk B, single block]"
+    func = AI + ".liftover_location_to_seq_chunk_parent"
+    module = "gene.interval"
+    call = ("AbstractInterval.liftover_location_to_seq_chunk_parent("
+            "AbstractInterval.liftover_location_to_seq_chunk_parent(loc, chunk_a), chunk_b)")
+    ensures = {
+        "restriction-to-both-chunks-in-B-coordinates": lambda i, r: If(
+            Max(Max(i.s, i.as_), i.bs) < Min(Min(i.e, i.ae), i.be),
+            _single_at(r, Max(Max(i.s, i.as_), i.bs) - i.bs, Min(Min(i.e, i.ae), i.be) - i.bs),
+            class_name(r) == "_EmptyLocation"),
+    }
+
+    def inputs(self, S):
+        loc = single(S, "loc", directed=False)
+        a, as_, ae = chunk_parent(S, "a")
+        b, bs, be = chunk_parent(S, "b")
+        S.assume(And(as_ < ae, bs < be))
+        S.assume(Max(loc.start, as_) < Min(loc.end, ae))  # the location has a base on chunk A
+        return NS(loc=loc, chunk_a=a, chunk_b=b, s=loc.start, e=loc.end, as_=as_, ae=ae, bs=bs, be=be)
+
+    def samples(self, rng):
+        d = sample_chunk(rng, "a")
+        d.update(sample_chunk(rng, "b"))
+        s = rng.randint(0, 16)
+        d.update(loc_start=s, loc_end=s + rng.randint(1, 8), loc_strand=rng.choice(["PLUS", "MINUS"]))
+        return d
+
+    def observe(self, r):
+        from .c02_single import obs_loc
+        return obs_loc(r)[:3]
+
+
+def _single_at(r, start, end):
+    if class_name(r) != "SingleInterval":
+        return False
+    return And(r.start == start, r.end == end)
+
+
+CASES = [LiftToChunk(), LiftRoundTrip(), LiftChunkToChunk()]
